@@ -33,6 +33,7 @@ pub fn prop() -> Prop {
             Sub { name: "corrupt", run: run_corrupt, replay: |j| replay_with::<Bytes>(j, check_bytes_near) },
             Sub { name: "soup", run: run_soup, replay: |j| replay_with::<Bytes>(j, check_bytes) },
             Sub { name: "codepoints", run: run_codepoints, replay: |j| replay_with::<Bytes>(j, check_bytes) },
+            Sub { name: "bigtext", run: run_bigtext, replay: |j| replay_with::<(M, Vec<u16>)>(j, check_bigtext) },
         ],
     }
 }
@@ -257,6 +258,24 @@ fn run_codepoints(ctx: &mut Ctx) {
             texts.push(format!("\"\\u{l:04x}\\u{h:04x}\"").into_bytes());
         }
     }
+    if ctx.worker == 0 {
+        let bad = ['G', 'g', 'Z', 'z', ' ', '"', '\\', '/', ':', '@', '`', '{', '}', '\u{e9}'];
+        let escapes = ["0041", "D83D", "DC8E", "d800", "dfff", "00e9"];
+        for e in escapes {
+            for pos in 0..4 {
+                for b in bad {
+                    let mut h: Vec<char> = e.chars().collect();
+                    h[pos] = b;
+                    let h: String = h.into_iter().collect();
+                    texts.push(format!("\"\\u{h}\"").into_bytes());
+                    texts.push(format!("\"\\u{{{h}}}\"").into_bytes());
+                    texts.push(format!("\"\\uD83D\\u{h}\"").into_bytes());
+                    texts.push(format!("\"\\u{{D83D}}\\u{{{h}}}x\"").into_bytes());
+                    texts.push(format!("[\"\\u{h}\\uDC8E\"]").into_bytes());
+                }
+            }
+        }
+    }
     for t in texts {
         if ctx.failure.is_some() {
             break;
@@ -272,4 +291,32 @@ fn run_codepoints(ctx: &mut Ctx) {
             Err(p) => ctx.fail("codepoints", crate::jser::Jser::to_j(&case), format!("unexpected {}", p.describe())),
         }
     }
+}
+
+
+/// large documents as text: thousands of members, empty containers, long strings, deep nesting
+pub fn check_bigtext(c: &(M, Vec<u16>), obs: &mut Obs) -> Result<(), String> {
+    let want = c.0.unsigned_norm().norm();
+    let text = crate::textref::model_text(&c.0, &c.1);
+    obs.nt();
+    let got = lib_parse(&text).map_err(|e| format!("{e} on a {}-byte text", text.len()))?;
+    match got {
+        Ok(g) if g.ident_eq(&want) => Ok(()),
+        Ok(g) => Err(format!("parse_value of a {}-byte rendering of a large document gives a different value (sizes {} vs {})", text.len(), g.size(), want.size())),
+        Err(e) => Err(format!("parse_value rejected a {}-byte well-formed document ({} nodes, depth {}): {e}", text.len(), want.size(), want.depth())),
+    }
+}
+
+fn run_bigtext(ctx: &mut Ctx) {
+    let cases = ctx.share(ctx.tier.pick(400, 6_000));
+    let strat = (any::<u8>(), any::<u8>(), any::<u16>(), 0u8..4, vec(any::<u16>(), 1..4)).prop_map(|(k, s, seed, wrap, sels)| {
+        let big = crate::gen::big_doc(k, s, seed, 2);
+        let m = match wrap {
+            0 => M::Arr(vec![M::Null, big, M::Arr(vec![])]),
+            1 => M::Obj([("a".to_string(), M::Arr(vec![])), ("b".to_string(), big)].into_iter().collect()),
+            _ => big,
+        };
+        (m, sels)
+    });
+    run_strategy(ctx, "C02", "bigtext", cases, strat, check_bigtext);
 }
